@@ -16,7 +16,7 @@ ASSUMPTIONS = [
     'MultiTypeMap.resolve (mode U): every registered method is a function with its own code object (adapt_function / rename_code give each adapted method a fresh one)',
     'MultiTypeMap.resolve (mode U): mro returns non-empty groups and puts each method in exactly one group (mro.positions / mro._pull)',
     
-    'MultiTypeMap.mro (mode U): each handler occurs at most once in a per-entry table (register stores it under one type per entry)',
+    'MultiTypeMap.mro (mode U): each handler occurs at most once in a per-entry table (guarantee side discharged: register.any_number_of_entries/one_registration_files_the_handler_under_at_most_one_class_per_table, given pairwise distinct keyword names - Python syntax - and MTInv: the handler is not registered yet)',
     'MultiTypeMap.mro (mode U): signatures have vararg=False (Signature.extract rejects *args; register creates the -1 table only for vararg signatures)',
     'MultiTypeMap.mro (mode U): the key is non-empty (__missing__ answers () before calling resolve)',
     "priorities are finite reals", "the type order restricted to the registered plain classes is a strict partial order (C12 class fragment) and the subtype test respects it (C13)"]
